@@ -172,6 +172,8 @@ def run(ctx):
             ok = any(astq.text(s).startswith("self._fp._safe_read(2)") for s in body)
             ctx.ob(R3, hc.qual, "finishing a chunk consumes its trailing CRLF through _safe_read(2)", ok, node=n_)
 
+    rule_chunk_state(ctx)
+
     # ------------------------------------------------------------------ R4 decoder errors
     R4 = ctx.rule("C13-R4", "undecodable content raises DecodeError: _decode catches DECODER_ERROR_CLASSES (zlib.error, OSError and each enabled codec's error root) and raises DecodeError; flushing an incomplete zstd frame raises", "E3 + E1")
     df = m.method(f"{RS}.BaseHTTPResponse", "_decode")
@@ -314,3 +316,50 @@ def run(ctx):
     ctx.ob(R8, gr.qual, "getresponse() builds the response with the stored option", ok)
     st_ = [n_ for n_ in astq.walk_fn(m.method(HR, "__init__").node) if isinstance(n_, ast.Assign) and astq.text(n_.targets[0]) == "self.enforce_content_length"]
     ctx.ob(R8, f"{HR}.__init__", "the response keeps the option it was given", bool(st_) and astq.text(st_[0].value) == "enforce_content_length")
+
+
+def rule_chunk_state(ctx):
+    """C13-R9 (shared with C12): chunk_left typestate of _handle_chunk."""
+    m = ctx.model
+    R9 = ctx.rule("C13-R9", "chunk-position typestate: after _handle_chunk the remaining-bytes counter is None (chunk finished, its CRLF consumed) or a remainder that is positive because the path decided amt < chunk_left strictly - never 0, which read_chunked reserves for the terminating chunk", "E5 on _handle_chunk")
+    hc = m.method(HR, "_handle_chunk")
+
+    class HCRule(BaseRule):
+        def call(self, it, st, node, recv, pos, kw):
+            t = ast.unparse(node.func)
+            if t == "self._fp._safe_read":
+                s = st.copy()
+                a = pos[0] if pos else UNK
+                s.ts["reads"] = s.ts.get("reads", ()) + ((a.val if a.kind == "const" else (a.sym or "?")),)
+                return [Out("normal", s, AV("unk", none=False))]
+            return [Out("normal", st, UNK)]
+
+    outs, it = run_function(m, hc, HCRule(), HR, seeds={("self", "chunk_left"): AV("unk", sym="chunk_left"), ("self", "_fp"): AV("obj", "fp", truth=True, none=False)}, record_decisions=True)
+    n = 0
+    seen = set()
+    for o in outs:
+        if o.kind == "raise":
+            continue
+        cl = o.st.heap.get(("self", "chunk_left"))
+        clv = o.st.view(cl) if cl is not None else None
+        strict = o.st.ts.get(("cmp", "p:amt", "<", "chunk_left"))
+        reads = o.st.ts.get("reads", ())
+        finished = clv is not None and clv.kind == "const" and clv.val is None
+        key = (finished, strict, reads)
+        if key in seen:
+            continue
+        seen.add(key)
+        n += 1
+        if finished:
+            ok = 2 in reads
+            ctx.ob(R9, hc.qual, f"chunk finished (counter None): CRLF consumed, reads={reads}", ok, "" if ok else "a finished chunk leaves its CRLF on the stream: the next size line is misparsed", witness=o.st.witness(), node=hc.node)
+        else:
+            ok = strict is True and clv is not None and clv.sym != "chunk_left"
+            ctx.ob(R9, hc.qual, f"chunk partially read: counter decreased under a strict amt < chunk_left (decided: {strict})", ok,
+                   "" if ok else "the counter can reach 0 (or is left unchanged) without the chunk being closed: read_chunked takes 0 for the terminating chunk and silently drops the rest of the body", witness=o.st.witness(), node=hc.node)
+    ctx.sites(R9, n, 3, "exits of _handle_chunk")
+    # read_chunked: 0 means terminator, and the size line is only read when the counter is None
+    uc = m.method(HR, "_update_chunk_length")
+    first = [s_ for s_ in uc.node.body if isinstance(s_, ast.If)]
+    ok = bool(first) and astq.text(first[0].test) == "self.chunk_left is not None" and any(isinstance(x, ast.Return) for x in first[0].body)
+    ctx.ob(R9, uc.qual, "a new size line is read exactly when the counter is None", ok)
